@@ -106,7 +106,13 @@ pub fn eval(c: &ValidCase) -> Outcome {
             o.fail("resolve", format!("resolve.{}", v.sig), v.detail);
         }
     } else if !s1.is_empty() {
-        o.class("layout_independent_resolution_failure(C01)");
+        // the same failure in both layouts is C01's finding as well, but the statement is explicit that BOTH layouts must
+        // address every sample correctly: reported here too, marked as layout independent
+        o.class("layout_independent_resolution_failure(also C01)");
+        if let Some(v) = o1.violations.into_iter().next() {
+            let base = v.sig.split(':').next().unwrap_or("").to_string();
+            o.fail("resolve", format!("resolve.{}:both_layouts", base), v.detail);
+        }
     }
     // same description
     let d_on = describe(&p_on.movie, &r_on.out);
